@@ -5,7 +5,6 @@ package crl
 import (
 	"github.com/gr33nbl00d/caddy-revocation-validator/crl/crlrepository"
 	sync "verif/h/rt/vsync"
-	time "verif/h/rt/vtime"
 )
 
 // VerifReset puts the package-level state back to its initial value (fresh world).
@@ -13,7 +12,6 @@ func VerifReset() {
 	workDirsInUse = make(map[string]int)
 	workDirInUseMutex = sync.Mutex{}
 	crlUpdateMutex = sync.Mutex{}
-	lastCrlUpdateFinishTime = time.Time{}
 }
 
 func (c *CRLRevocationChecker) VerifUpdateCRLs(force bool) { c.updateCRLs(force) }
